@@ -103,7 +103,7 @@ def decodeOp (pool : Array Nat) (j : Json) : Option Op :=
             | Json.arr #[Json.str n, v] => some (n, jsonKw v)
             | _ => none))
         | _ => none)
-      (optKw j "caa"))
+      (optKw j "caa") (optNat j "prot"))
   | "array" => (cid "src").map (fun s => Op.array s (optStr j "member") (jsonKw (j.getObjValD "kw"))
       (getBool j "flat") (getBool j "iter"))
   | "mand" => (cid "src").map Op.mandatory
@@ -116,7 +116,9 @@ def decodeOp (pool : Array Nat) (j : Json) : Option Op :=
       | Json.arr #[Json.str n, Json.num t] => (pool[t.mantissa.toNat]?).map (fun c => (n, c))
       | _ => none)
     let perm := (getArr j "perm").toList.filterMap (fun p => p.getNat?.toOption)
-    base.map (fun b => Op.subclass b (getStr j "name") (optStr j "ns") fields perm (optKw j "attrs"))
+    let mixins := (getArr j "mixins").toList.filterMap (fun p => (p.getNat?.toOption).bind (fun i => pool[i]?))
+    base.map (fun b => Op.subclass b (getStr j "name") (optStr j "ns") fields perm (optKw j "attrs") mixins
+      (getBool j "asMixin"))
   | "append" => (cid "c").bind (fun c => (cid "t").map (fun t => Op.append c (getStr j "name") t))
   | "insert" => (cid "c").bind (fun c => (cid "t").map (fun t => Op.insert c (getNat j "idx") (getStr j "name") t))
   | "xmlattr" => (cid "src").map Op.xmlattr
@@ -165,7 +167,8 @@ def runHistory (j : Json) : Json := Id.run do
       st := { st with h := r.heap, pool := pool }
       let (st1, d) := snapshotDelta st
       st := st1
-      steps := steps.push (Json.mkObj [("res", Json.str res), ("delta", d)])
+      steps := steps.push (Json.mkObj [("res", Json.str res), ("delta", d),
+        ("prots", Json.arr (st.h.prots.map (fun d => Json.arr (d.map (fun p => Json.arr #[Json.str p.1, avalJson p.2])).toArray)).toArray)])
   return Json.mkObj [("steps", Json.arr steps)]
 
 def step (j : Json) : Json :=
